@@ -83,3 +83,36 @@ func vGenTable(g int) vTable {
 	}
 	return vTable{services: []vService{{root: "/t", routes: routes}}}
 }
+
+// Generated media tables (configuration numbers >= 5000): two routes on /t/a, each with a method from
+// {GET, POST} and Consumes / Produces lists from {none, [a/j], [a/j, a/x], [*/*]}; unordered pairs.
+var vGenLists = [][]string{nil, {"a/j"}, {"a/j", "a/x"}, {"*/*"}}
+
+func vGenMediaRoute(k int) vRoute {
+	m := []string{"GET", "POST"}[k%2]
+	k /= 2
+	c := vGenLists[k%4]
+	k /= 4
+	p := vGenLists[k%4]
+	return vRoute{method: m, path: "/a", consumes: c, produces: p}
+}
+
+const vGenMediaRoutes = 32 // 2 methods x 4 consumes x 4 produces
+
+func vGenMediaTable(g int) vTable {
+	n := vGenMediaRoutes
+	i := 0
+	for i = 0; i < n; i++ {
+		row := n - i
+		if g < row {
+			break
+		}
+		g -= row
+	}
+	j := i + g
+	routes := []vRoute{vGenMediaRoute(i)}
+	if i != j {
+		routes = append(routes, vGenMediaRoute(j))
+	}
+	return vTable{services: []vService{{root: "/t", routes: routes}}}
+}
